@@ -141,7 +141,10 @@ def group_public_key(hashname, l2_seed, secret_alg, secret_params, private_key_l
         kl, p, g = parse_ffc_params(secret_params)
         return ffc_key(kl, p, g, pow(g, x, p))
     cv, magic, _ = CURVES[secret_alg]
-    X, Y = cv.mul(x, cv.g)
+    pt = cv.mul(x, cv.g)
+    if pt is None:
+        raise ValueError("the derived private scalar is ≡ 0 mod the group order: no group public key exists")
+    X, Y = pt
     return magic + struct.pack("<I", cv.size) + X.to_bytes(cv.size, "big") + Y.to_bytes(cv.size, "big")
 
 
